@@ -520,6 +520,9 @@ class Device(device.Device):
             uid = uid[0:4] + b'\x88' + uid[4:]
 
         rsp = self.chipset.in_list_passive_target(1, 0, uid)
+        if rsp is not None and len(rsp) < 4:
+            self.log.error("insufficient target data")
+            return None
         if rsp is not None:
             sens_res, sel_res, sdd_res = rsp[1::-1], rsp[2:3], rsp[4:]
             if sel_res[0] & 0x60 == 0x00:
@@ -559,7 +562,7 @@ class Device(device.Device):
 
         afi = target.sensb_req[0:1] if target.sensb_req else b'\x00'
         rsp = self.chipset.in_list_passive_target(1, brty, afi)
-        if rsp and rsp[10] & 0b00001001 == 0b00000001:
+        if rsp and len(rsp) > 10 and rsp[10] & 0b00001001 == 0b00000001:
             # This is an ISO tag and the chipset has now activated it
             # with 64-byte max frame size and maybe a DID. Because we
             # implement ISO-DEP in software and can do without DID and
@@ -618,6 +621,9 @@ class Device(device.Device):
         try:
             data = self.chipset.in_jump_for_psl(1, br, b'', nfcid3, gbytes)
             atr_res = b'\xD5\x01' + data
+            if len(atr_res) < 17:
+                self.log.error("insufficient data for ATR_RES")
+                return None
         except Chipset.Error as error:
             if error.errno not in (0x01, 0x0A):
                 self.log.error(error)
@@ -755,6 +761,10 @@ class Device(device.Device):
                     raise error
                 else:
                     return None
+
+            if len(data) < 2 or data[0] & 0x70 > 0x20:
+                self.log.debug("insufficient or invalid activation data")
+                continue
 
             brty = ("106A", "212F", "424F")[(data[0] & 0x70) >> 4]
             self.log.debug("%s rcvd %s",
@@ -913,7 +923,10 @@ class Device(device.Device):
                 if error.errno != errno.ETIMEDOUT:
                     raise error
             else:
-                if not (data[1] == len(data)-1 and data[2:4] == b'\xD4\x00'):
+                if len(data) < 2 or data[0] & 0x70 > 0x20:
+                    self.log.debug("insufficient or invalid activation data")
+                elif not (data[1] == len(data)-1
+                          and data[2:4] == b'\xD4\x00'):
                     self.log.debug("expected ATR_REQ but got %s",
                                    hexlify(memoryview(data)[1:]).decode())
                 else:
